@@ -68,8 +68,9 @@ def cases(tier):
     for mode in ("api", "src"):
         for first in range(len(PAIR_ATOMS)):
             yield ("pairs", mode, first)
-    if tier == "thorough":
-        yield ("clean-api", tier)
+    yield ("clean-api", tier)
+    for lib in ("csv", "netcdf"):
+        yield ("datatypes", lib, tier)
     for mi in range(len(c11.MODELS)):
         yield ("builtin", mi, tier)
     for mode in ("api", "src"):
@@ -208,12 +209,21 @@ def roundtrip(p, viols, tag, libs=LIBS, work=None, run=True):
                 viols.append(V("C15:roundtrip:value-differs:" + _what(tag), "%s.%s is %r after the round trip, was %r; text %r" % (n, an, gv, wv, text), **tag))
                 return "value-differs"
     if run:
-        try:
-            with numpy.errstate(all="ignore"):
-                p.run()
-                q.run()
-        except Exception as exc:
-            return "run-raised:" + type(exc).__name__
+        def outcome(prog):
+            try:
+                with numpy.errstate(all="ignore"):
+                    prog.run()
+            except Exception as exc:
+                return type(exc).__name__
+            return None
+
+        rp, rq = outcome(p), outcome(q)
+        if rp != rq:
+            viols.append(V("C15:roundtrip:run-outcome-differs:" + _what(tag), "running the original %s, running the reloaded program %s" % (
+                "raised " + rp if rp else "succeeded", "raised " + rq if rq else "succeeded"), **tag))
+            return "run-outcome-differs"
+        if rp is not None:
+            return "run-raised:" + rp
         for n in p.commands:
             if not _eq(p.commands[n].result, q.commands[n].result):
                 viols.append(V("C15:roundtrip:results-differ", "result %s differs after the round trip" % n, **tag))
@@ -433,6 +443,51 @@ def run(case):
                 outcomes[oc] = outcomes.get(oc, 0) + 1
                 n += 1
                 sample = tag
+        elif case[0] == "datatypes":
+            # the DataType argument of the two readers, given every accepted way (each name in source text and through the API, each
+            # type object through the API), on data inside and outside the ranges some of the names check: the reloaded program must
+            # run to the same outcome and the same result
+            from mpilot.program import Program
+            from . import c18
+
+            n = 0
+            sample = None
+            lib = case[1]
+            libs = ("mpilot.libraries.eems.%s" % lib,)
+            datasets = {"unit": [0.5, -0.25, 1.0, 0.0], "wide": [1.5, -0.5, 7.0, 2.0], "negative": [-3.0, 2.0, -1.0, 0.25], "positive": [3.0, 2.6, 1.0, 0.25]}
+            for dname, vals in datasets.items():
+                if lib == "csv":
+                    fname = "dt_%s.csv" % dname
+                    with open(os.path.join(work, fname), "w") as f:
+                        f.write("v\n" + "".join("%r\n" % x for x in vals))
+                else:
+                    fname = "dt_%s.nc" % dname
+                    c18._make_template(os.path.join(work, fname), (2, 2), {"v": ("f8", vals, None, None)})
+                probe = Program(libraries=libs, working_dir=work)
+                cls = probe.find_command_class("EEMSRead")
+                valid = cls.inputs["DataType"].valid_types
+                forms = [("name", k) for k in valid]
+                for t in valid.values():
+                    if not any(f == ("type", t) for f in forms):
+                        forms.append(("type", t))
+                for kind, form in forms + [("absent", None)]:
+                    if kind == "type" and min(vals) < 0 and all(k.startswith("Positive") for k, t in valid.items() if t is form):
+                        # UNSPECIFIED: a type object that only the "Positive ..." names denote (numpy.uint) cannot be written without also
+                        # asking for the positivity test, which the command keys on the NAME; on negative data no text means the same
+                        outcomes["datatypes:unspecified-positive-only-type"] = outcomes.get("datatypes:unspecified-positive-only-type", 0) + 1
+                        continue
+                    for extra in ({}, {"MissingVal" if lib == "csv" else "MissingValue": 2.0}):
+                        p = Program(libraries=libs, working_dir=work)
+                        args = {"InFileName": fname, "InFieldName": "v"}
+                        if kind != "absent":
+                            args["DataType"] = form
+                        args.update(extra)
+                        p.add_command(cls, "r", args)
+                        tag = {"kind": "datatype:%s:%s" % (lib, kind), "mode": "api", "DataType": repr(form), "data": vals, "arguments": sorted(extra)}
+                        oc = roundtrip(p, viols, tag, libs=libs, work=work)
+                        outcomes["datatypes:" + oc.split(" ")[0]] = outcomes.get("datatypes:" + oc.split(" ")[0], 0) + 1
+                        n += 1
+                        sample = tag
         else:
             from mpilot.program import Program
             import contextlib
